@@ -23,6 +23,7 @@ import (
 	"strconv"
 	"strings"
 	"testing"
+	"testing/iotest"
 	"time"
 	"unicode/utf8"
 
@@ -495,5 +496,45 @@ func TestValidUTF8(t *testing.T) {
 	}
 	if !utf8.ValidString("") || !utf8.ValidString("\uFFFD") || !utf8.ValidString("OK") {
 		t.Fatalf("literal axioms")
+	}
+}
+
+// io.Reader.Read on the byte-stream model (std.spec): delivers a prefix of what is
+// left, in order; with nothing left and a non-empty buffer it reports the end error.
+func TestReaderRead(t *testing.T) {
+	r := rng()
+	for i := 0; i < 20000; i++ {
+		content := make([]byte, r.Intn(20))
+		r.Read(content)
+		var rd io.Reader
+		switch r.Intn(4) {
+		case 0:
+			rd = bytes.NewReader(content)
+		case 1:
+			rd = strings.NewReader(string(content))
+		case 2:
+			rd = iotest.OneByteReader(bytes.NewReader(content))
+		default:
+			rd = iotest.HalfReader(bytes.NewReader(content))
+		}
+		pos := 0
+		for step := 0; step < 50; step++ {
+			p := make([]byte, r.Intn(8))
+			avail := len(content) - pos
+			n, err := rd.Read(p)
+			if n < 0 || n > len(p) || n > avail {
+				t.Fatalf("Read returned n=%d with len(p)=%d avail=%d", n, len(p), avail)
+			}
+			if !bytes.Equal(p[:n], content[pos:pos+n]) {
+				t.Fatalf("Read delivered %x, the stream has %x at %d", p[:n], content[pos:pos+n], pos)
+			}
+			if avail <= 0 && len(p) > 0 && !(n == 0 && err == io.EOF) {
+				t.Fatalf("Read at the end: n=%d err=%v", n, err)
+			}
+			if err != nil && err != io.EOF {
+				t.Fatalf("Read error %v", err)
+			}
+			pos += n
+		}
 	}
 }
